@@ -700,13 +700,27 @@ fn build_av01_fmp4(config: &FragmentConfig) -> Vec<u8> {
 }
 
 fn build_av1c_fmp4(config: &FragmentConfig) -> Vec<u8> {
+    // AV1CodecConfigurationRecord (AV1-ISOBMFF 2.3): marker(1)=1 version(7)=1, then the
+    // profile/level/tier/bit-depth/chroma fields of the sequence header, then the
+    // configOBUs. The fields are parsed from the supplied Sequence Header OBU; if it cannot
+    // be parsed the defaults of Av1Config (profile 0, 4:2:0, 8 bit) are used.
+    let seq_header: &[u8] = config.av1_sequence_header.as_deref().unwrap_or(&[]);
+    let av1 = crate::codec::av1::extract_av1_config(seq_header).unwrap_or_default();
+
     let mut payload = Vec::new();
-    payload.push(1); // version
-    payload.push(0); // seq_profile, seq_level_idx_0, seq_tier_0, high_bitdepth, twelve_bit, monochrome, chroma_subsampling_x, chroma_subsampling_y, chroma_sample_position, reserved
-    payload.push(0); // initial_presentation_delay_present, reserved
-    if let Some(seq_header) = &config.av1_sequence_header {
-        payload.extend_from_slice(seq_header);
-    }
+    payload.push(0x81); // marker + version
+    payload.push(((av1.seq_profile & 0x07) << 5) | (av1.seq_level_idx & 0x1f));
+    payload.push(
+        ((av1.seq_tier & 0x01) << 7)
+            | (u8::from(av1.high_bitdepth) << 6)
+            | (u8::from(av1.twelve_bit) << 5)
+            | (u8::from(av1.monochrome) << 4)
+            | (u8::from(av1.chroma_subsampling_x) << 3)
+            | (u8::from(av1.chroma_subsampling_y) << 2)
+            | (av1.chroma_sample_position & 0x03),
+    );
+    payload.push(0x00); // reserved(3) + initial_presentation_delay_present(1)=0 + reserved(4)
+    payload.extend_from_slice(seq_header);
     build_box(b"av1C", &payload)
 }
 
